@@ -97,7 +97,7 @@ def _concrete_dataset(c, nf=None, nd=None, sorted_dirs=False):
     return da, r
 
 
-@contract(PT + "ptm4", props=["C09", "C05", "C06"], scenarios=[{}])
+@contract(PT + "ptm4", props=["C09", "C05", "C06"], scenarios=[{}], replays=10)
 def v_ptm4(c):
     """BOUNDED (concrete replays with an independent oracle): wind sea = bins whose celerity does
     not exceed agefac x wind component; partitions disjoint, sum to the input, sorted coordinates"""
@@ -132,7 +132,7 @@ def v_ptm4(c):
                 c.ensure_eq("swell_is_the_complement", swl, 0.0 if cel <= comp else e)
 
 
-@contract(PT + "bbox", props=["C09", "C20"], scenarios=[{"case": "disjoint"}, {"case": "omitted"}, {"case": "overlap"}, {"case": "overlap3"}])
+@contract(PT + "bbox", props=["C09", "C20"], scenarios=[{"case": "disjoint"}, {"case": "omitted"}, {"case": "overlap"}, {"case": "overlap3"}], replays=8)
 def v_bbox(c, case):
     """BOUNDED (concrete replays with an independent oracle)"""
     if c.m.symbolic:
@@ -176,7 +176,7 @@ def v_bbox(c, case):
                 c.ensure_eq("remainder_in_last_part", float(out.isel(part=len(boxes), time=p).sel(freq=ff, dir=dd)), 0.0 if any(inside) else e)
 
 
-@contract(SA + "split", props=["C09", "C20"], scenarios=[{"case": "freq"}, {"case": "freq_dir"}, {"case": "invalid"}])
+@contract(SA + "split", props=["C09", "C20"], scenarios=[{"case": "freq"}, {"case": "freq_dir"}, {"case": "invalid"}], replays=10)
 def v_split(c, case):
     """BOUNDED (concrete replays with an independent oracle): bins inside the band unchanged,
     the rest removed, linear interpolation at an off-grid cutoff; fmax <= fmin rejected"""
@@ -222,7 +222,7 @@ def v_split(c, case):
         c.ensure_true("stats_with_limits_equal_stats_of_split", bool(np.allclose(a[nm].values, b[nm].values, equal_nan=True)), nm)
 
 
-@contract(PT + "ptm5", props=["C09"], scenarios=[{}])
+@contract(PT + "ptm5", props=["C09"], scenarios=[{}], replays=10)
 def v_ptm5(c):
     """BOUNDED (concrete replays): zero strictly beyond the cutoff on the respective side,
     elsewhere the input times one factor per spectrum (1 when the cutoff is a grid frequency)"""
